@@ -64,8 +64,12 @@ def gen_cases(rng, tier, rnd):
         elif r < 0.8:
             a = genpda.abstract_pda(rng)
             s, rank = genfa.rename(a, rng)
-            cases.append({'kind': 'pda', 'spec': s, 'rank': rank, 'abs': hx(a), 'limit': rng.choice([20, 60, 200, 1000]),
-                          'words': _pick_words(rng, s['Sigma'], lambda w: rpda.accepts(s, w), 4, 4, 2)})
+            lim = rng.choice([20, 60, 200, 1000])
+            maxlen = 4
+            if lim == 1000 and not rpda.closure_sizes(s, '', 300)[1]:
+                maxlen = 2      # unbounded closure under the default limit: the sets grow by ~2000 configurations per letter
+            cases.append({'kind': 'pda', 'spec': s, 'rank': rank, 'abs': hx(a), 'limit': lim,
+                          'words': _pick_words(rng, s['Sigma'], lambda w: rpda.accepts(s, w), maxlen, 4, 2)})
         else:
             a = gencfg.abstract_cnf(rng)
             s, rank = gencfg.rename(a, rng)
@@ -273,7 +277,7 @@ def _run_phase(case, env, obj, out, dig):
         out['probes']['limit_%s' % ('above_default' if case.get('limit', 1000) > 1000 else case.get('limit', 1000))] = 1
         for w in case['words']:
             exact = rpda.accepts(snap0, w)
-            pb = 100_000 + 2500 * (max(case.get('limit', 1000), 1000) + 30) * (len(w) + 1)
+            pb = 300_000 + 6000 * (max(case.get('limit', 1000), 1000) + 30) * (len(w) + 1) ** 2
             st, lib_acc, ticks = call(env, pa.pda_accepts_word, obj, w, budget=pb)
             if not record(st, lib_acc, ticks, 'pda_accepts_word', w):
                 continue
